@@ -27,8 +27,12 @@ type State struct {
 	Transitions stablemap.Map[any, *State]
 	Accept      bool
 	NonGreedy   bool
-	NFAStates   []*nfa.State
-	Data        any
+	// NonGreedyAccept is set when the state holds the accepting state of a rule
+	// together with a NonGreedy state of that same rule: the rule's non-greedy
+	// repetition could go on, but the whole rule has already matched.
+	NonGreedyAccept bool
+	NFAStates       []*nfa.State
+	Data            any
 }
 
 func (s *State) AddTransition(toState *State, input any) {
